@@ -25,6 +25,12 @@ def gen_az(rng, naz=None, equal=False):
         hs.append(hvsrpy.HvsrTraditional(f, A))
         As.append(A)
     az = list(np.sort(rng.choice(np.arange(0, 180, 5.), size=naz, replace=False)))
+    # every azimuth in [0, 180] is legal, the end points together and repeated values included: each entry is one azimuth of the statement
+    kind = int(rng.integers(0, 4))
+    if naz >= 2 and kind == 0:
+        az[0], az[-1] = 0., 180.
+    elif naz >= 2 and kind == 1:
+        az[1] = az[0]
     return hvsrpy.HvsrAzimuthal(hs, az), f, As
 
 
@@ -131,6 +137,17 @@ def main_clause(cl, rng, n, replay):
             cl.case((j, step + 1, tuple(hist)))
             if not check(cl, h, f, As, list(hist)):
                 return
+        # rejected windows do not matter, whatever they contain: a rejected window with exact zeros (a dead channel; amplitudes >= 0 are legal)
+        cand = [(a, i) for a, hv in enumerate(h.hvsrs) for i in np.flatnonzero(~hv.valid_window_boolean_mask)]
+        if cand:
+            a, i = cand[int(rng.integers(0, len(cand)))]
+            cols = rng.choice(len(f), size=int(rng.integers(1, len(f))), replace=False)
+            h.hvsrs[a].amplitude[i, cols] = 0.0
+            hist.append("zeros-in-a-rejected-window")
+            cl.case((j, "zeros", tuple(hist)))
+            with np.errstate(all="ignore"):
+                if not check(cl, h, f, As, list(hist)):
+                    return
         # order of the azimuths is irrelevant
         perm = rng.permutation(len(h.hvsrs))
         h2 = hvsrpy.HvsrAzimuthal([h.hvsrs[i] for i in perm], [h.azimuths[i] for i in perm])
